@@ -286,6 +286,8 @@ fn gen_project(rng: &mut Rng, out: &mut Out) -> Project {
     let exts = extern_table(rng);
     let many = rng.chance(1, 3);
     let n_subs = 1 + rng.below(if many { 4 } else { 2 }) as usize;
+    // half of the projects have RDX as second return register (parameter AND return register)
+    let dual = rng.chance(1, 2);
     let mut subs = Vec::new();
     for i in 0..n_subs {
         // "caller style" functions read few parameter registers themselves and mostly call other
@@ -312,7 +314,11 @@ fn gen_project(rng: &mut Rng, out: &mut Out) -> Project {
                 }
             }
         }
-        let exclude: Vec<&'static str> = probes.iter().map(|(r, _)| *r).collect();
+        let mut exclude: Vec<&'static str> = probes.iter().map(|(r, _)| *r).collect();
+        if dual && rng.chance(1, 2) && !exclude.contains(&"RDX") {
+            // a function that leaves the dual-role register alone
+            exclude.push("RDX");
+        }
         let mut blocks = Vec::new();
         for j in 0..n_blocks {
             let mut g = Gen { rng, param_bias, exclude: exclude.clone() };
@@ -501,6 +507,27 @@ fn gen_project(rng: &mut Rng, out: &mut Out) -> Project {
         let b0 = blk(&n(0), vec![], vec![j_cbranch(&format!("{}_j0", n(0)), &n(1), cond), j_branch(&format!("{}_j1", n(0)), &n(2))]);
         subs[i] = sub(&format!("f{}", i), &format!("fn{}", i), vec![b0, taken, fall], None);
     }
+    if dual && n_subs >= 2 && rng.chance(1, 2) {
+        // "after-call reader": reads RDX only behind a call to another internal function
+        out.count("fn:after-call-reader");
+        let i = 0usize;
+        let callee = 1 + rng.below(n_subs as u64 - 1) as usize;
+        let n = |b: usize| format!("f{}_b{}", i, b);
+        let use_ = match rng.below(3) {
+            0 => d_assign(&format!("{}_d0", n(1)), var("RBX", 8), e_bin(BinOpType::IntAdd, e_var("RDX", 8), e_const(1, 8))),
+            1 => d_load(&format!("{}_d0", n(1)), var("RBX", 8), e_bin(BinOpType::IntAdd, e_var("RSP", 8), e_bin(BinOpType::IntMult, e_var("RDX", 8), e_const(8, 8)))),
+            _ => d_assign(&format!("{}_d0", n(1)), var("ZF", 1), e_bin(BinOpType::IntEqual, e_var("RDX", 8), e_const(0, 8))),
+        };
+        subs[i] = sub(
+            "f0",
+            "fn0",
+            vec![
+                blk(&n(0), vec![d_assign(&format!("{}_d0", n(0)), var("R11", 8), e_const(3, 8))], vec![j_call(&format!("{}_j0", n(0)), &format!("f{}", callee), Some(&n(1)))]),
+                blk(&n(1), vec![use_], vec![j_return(&format!("{}_j0", n(1)), Expression::Var(tmp("$ret", 8)))]),
+            ],
+            None,
+        );
+    }
     let mut extra_externs: Vec<ExternSymbol> = Vec::new();
     if rng.chance(1, 4) {
         // replace the first function that is not the guard function by a "maybe-stack store" function
@@ -516,7 +543,86 @@ fn gen_project(rng: &mut Rng, out: &mut Out) -> Project {
         .map(|s| extern_symbol(&format!("x_{}", s.name), s.name, s.params.clone(), vec![reg_arg("RAX")], s.no_return))
         .chain(extra_externs.into_iter())
         .collect();
-    project_x64(program(subs, externs, vec![tid("f0")]))
+    let prog = program(subs, externs, vec![tid("f0")]);
+    if dual {
+        project_dual(prog)
+    } else {
+        project_x64(prog)
+    }
+}
+
+/// the x86-64 project with RDX as second integer return register (as in the System V ABI), so that RDX
+/// is both a parameter and a return register
+fn project_dual(program: Program) -> Project {
+    let mut p = project_x64(program);
+    for cc in p.calling_conventions.values_mut() {
+        cc.integer_return_register = vec![var("RAX", 8), var("RDX", 8)];
+    }
+    p
+}
+
+/// Directed shapes for values that survive an internal call: the caller `f0` reads RDX (parameter and
+/// return register) only AFTER calling `f1` (optionally through `f2`); the callee leaves RDX untouched,
+/// overwrites it on one arm of a diamond, or on every path. Controls: RAX (return-only), RSI
+/// (parameter-only: always clobbered), and the same shapes with the single return register RAX.
+fn directed_after_call_projects() -> Vec<Project> {
+    let mut v = Vec::new();
+    let ret = |t: &str| j_return(t, Expression::Var(tmp("$ret", 8)));
+    for dual in [true, false] {
+        for callee_kind in 0..4u64 {
+            for levels in 1..3usize {
+                for reg in ["RDX", "RAX", "RSI"] {
+                    // the function at the bottom of the call chain
+                    let g_i = levels;
+                    let n = |b: usize| format!("f{}_b{}", g_i, b);
+                    let w = |t: &str| d_assign(t, var(reg, 8), e_const(42, 8));
+                    let other = |t: &str| d_assign(t, var("R10", 8), e_const(7, 8));
+                    let g_blocks = match callee_kind {
+                        0 => vec![blk(&n(0), vec![d_assign(&format!("{}_d0", n(0)), var("RAX", 8), e_const(42, 8))], vec![ret(&format!("{}_j0", n(0)))])]
+                            .into_iter()
+                            .map(|b| if reg == "RAX" { blk(&n(0), vec![other(&format!("{}_d0", n(0)))], vec![ret(&format!("{}_j0", n(0)))]) } else { b })
+                            .collect(),
+                        1 => vec![blk(&n(0), vec![w(&format!("{}_d0", n(0)))], vec![ret(&format!("{}_j0", n(0)))])],
+                        2 => vec![
+                            blk(&n(0), vec![], vec![j_cbranch(&format!("{}_j0", n(0)), &n(1), e_var("ZF", 1)), j_branch(&format!("{}_j1", n(0)), &n(2))]),
+                            blk(&n(1), vec![w(&format!("{}_d0", n(1)))], vec![j_branch(&format!("{}_j0", n(1)), &n(3))]),
+                            blk(&n(2), vec![other(&format!("{}_d0", n(2)))], vec![j_branch(&format!("{}_j0", n(2)), &n(3))]),
+                            blk(&n(3), vec![], vec![ret(&format!("{}_j0", n(3)))]),
+                        ],
+                        _ => vec![
+                            // two return sites, the register is written before one of them
+                            blk(&n(0), vec![], vec![j_cbranch(&format!("{}_j0", n(0)), &n(1), e_var("ZF", 1)), j_branch(&format!("{}_j1", n(0)), &n(2))]),
+                            blk(&n(1), vec![w(&format!("{}_d0", n(1)))], vec![ret(&format!("{}_j0", n(1)))]),
+                            blk(&n(2), vec![], vec![ret(&format!("{}_j0", n(2)))]),
+                        ],
+                    };
+                    let mut subs = Vec::new();
+                    for i in 0..levels {
+                        let nb = |b: usize| format!("f{}_b{}", i, b);
+                        let after: Vec<Term<Def>> = if i == 0 {
+                            vec![d_assign(&format!("{}_d0", nb(1)), var("RBX", 8), e_bin(BinOpType::IntAdd, e_var(reg, 8), e_const(1, 8)))]
+                        } else {
+                            vec![]
+                        };
+                        subs.push(sub(
+                            &format!("f{}", i),
+                            &format!("fn{}", i),
+                            vec![
+                                blk(&nb(0), vec![d_assign(&format!("{}_d0", nb(0)), var("R11", 8), e_const(i as u64, 8))],
+                                    vec![j_call(&format!("{}_j0", nb(0)), &format!("f{}", i + 1), Some(&nb(1)))]),
+                                blk(&nb(1), after, vec![ret(&format!("{}_j0", nb(1)))]),
+                            ],
+                            None,
+                        ));
+                    }
+                    subs.push(sub(&format!("f{}", g_i), "callee", g_blocks, None));
+                    let prog = program(subs, vec![], vec![tid("f0")]);
+                    v.push(if dual { project_dual(prog) } else { project_x64(prog) });
+                }
+            }
+        }
+    }
+    v
 }
 
 /// Directed set (always run): one single-block function per (instruction position, offset form) in
@@ -588,6 +694,7 @@ fn directed_projects() -> Vec<Project> {
     }
     v.extend(directed_guard_projects());
     v.extend(directed_maybe_stack_projects());
+    v.extend(directed_after_call_projects());
     v
 }
 
